@@ -60,13 +60,13 @@ where
     // Hash verification key into transcript
     vk.hash_into(transcript)?;
 
-    for committed_instances in committed_instances.iter() {
+    // The prover absorbs the instances proof by proof (committed columns first,
+    // then the plain ones), so must the verifier.
+    for (committed_instances, instance) in committed_instances.iter().zip(instances.iter()) {
         for commitment in committed_instances.iter() {
             transcript.common(commitment)?
         }
-    }
 
-    for instance in instances.iter() {
         for instance in instance.iter() {
             transcript.common(&F::from_u128(instance.len() as u128))?;
             for value in instance.iter() {
